@@ -62,6 +62,25 @@ CHECKS.update({
    note="Inputs declaring lengths that would make the allocator fail (abort) or zero-width loops run for hours are skipped by a reference-decoder pre-screen or, when they slip through, counted as excepted (allocation >= 1 GiB for a < 4 kB input; 8 s per-case limit). Debug profile with overflow checks; release+ASan via the fuzz target."),
 })
 
+CHECKS.update({
+ "C09": dict(cat="exploration", design="DESIGN.md §3 C09, engine/ABI_INTEGRATION.md §3",
+   technique="property-based testing: generated interface families (abigen) + proptest call programs, differential oracle direct call vs AbiConnection, drop ledger",
+   text="Generated exported traits (plain data by value/reference, &str, slices, Result, boxed trait objects, Fn/FnMut closures, boxed futures, async_trait, 0..64 arguments) with recording implementations; generated call programs are run directly and through an AbiConnection: logs of observed arguments, returned values, closure traces and the drop ledger must be identical, scripted panics (literal, formatted, non-string) must reach the caller with their message and leave the connection usable. Code under test runs in forked children so aborts are captured.",
+   note="No separately compiled cdylib: references of provably identical layout always travel by pointer. Interfaces are limited to the shapes abigen emits (ABI_INTEGRATION.md §2)."),
+ "C10": dict(cat="exploration", design="DESIGN.md §3 C10, engine/ABI_INTEGRATION.md §3",
+   technique="property-based testing over generated interface histories: every ordered (caller version, implementation version) pair, reference up/down-conversion model as oracle",
+   text="For every ordered pair of revisions of each generated family, arguments, return values, closure arguments and closure results must arrive as upgrade(downgrade(x, sender->min), min->receiver); methods missing on the implementation side must connect and panic naming the method when called; breaking revisions must be rejected at creation. Argument and return directions are counted separately.",
+   note="Evolving callback interfaces and variants unknown to the receiver are excluded by construction. Model = abigen::model."),
+ "C15": dict(cat="exploration", design="DESIGN.md §3 C15, engine/ABI_INTEGRATION.md §3",
+   technique="model-based property testing: proptest sequences of verify_compatiblity runs over revisions of generated interfaces, compared with a ledger model",
+   text="Sequences of runs (repeat, advance to a compatible revision, switch to a labelled breaking revision, go back) over a fresh or pre-populated temp directory: each run must be Ok exactly when the model (version -> definition recorded at first sight) says the revision is backward compatible, the directory must contain one file per version seen, and re-running an unchanged revision must succeed.",
+   note="Hand-edited schema files and Send/Sync/receiver changes are not generated."),
+ "C16": dict(cat="exploration", design="DESIGN.md §3 C16, engine/ABI_INTEGRATION.md §3",
+   technique="randomised schedule sampling: generated multi-thread programs run in fresh processes with seeded perturbation, compared against the sequential run; watchdog with deadlock confirmation",
+   text="LOW ASSURANCE (sampling of schedules only). Generated programs for 2..16 threads create connections (first use and cached, same and different interfaces, nested creation through closures/trait objects) and call shared connections; results must equal the sequential run and all threads must finish; a stuck process is only reported as a violation after confirmation (all threads asleep with unchanged CPU time over three samples, gdb backtrace attached), otherwise inconclusive.",
+   note="Absence of races/deadlocks is not established. No ThreadSanitizer build, no lock-site hooks, no load_shared_library path (no cdylib)."),
+})
+
 NOT_YET = {
 }
 
